@@ -44,4 +44,10 @@ CHECKS['C11'] = {'technique': MS + '; handler-mode trace queries', 'engine': 'mi
 CHECKS['C19'] = {'technique': MS + '; handler-mode trace queries', 'engine': 'mirsym',
     'text': 'Bounded symbolic verification: collect_bank_fees in handler mode (three transfers, routes liquidity vault -> insurance vault / fee vault / global fee wallet ATA, amounts = int(min(bucket, remaining liquidity)) in order, buckets fall by the same amounts, ATA check present); claim_emissions / settle (cap by remaining, conservation, flag gating, write set); calc_emissions never above the exact formula; admin-only drains are part of C08.b.',
     'note': _H}
+CHECKS['C04'] = {'technique': MS + '; compositional (valuation, accumulation, decision, wiring)', 'engine': 'mirsym',
+    'text': 'Bounded symbolic verification, compositional: per-position calc_weighted_asset_value / calc_weighted_liab_value equal an independently written reference (price type and bias, weights incl. e-mode max, USD-cap discount, zeroing rules, error propagation) on every path; accumulation over position lists (<= 4 quick / 8 thorough) equals the sums; check_account_health accepts iff assets >= liabilities and the risk-tier rule holds (and never rejects positive health for another reason); risk-tier rule equals the reference on lists <= 3/5; borrow/withdraw/liquidate handlers call the check after the mutation and sort and propagate its error.',
+    'note': _H + ' Not decided: reconcile_emode_configs (BTreeMap intersection of e-mode configs) and the f64 copies in HealthCache; oracle byte parsing is C09.'}
+CHECKS['C05'] = {'technique': MS + '; handler-mode with the fee arithmetic inlined', 'engine': 'mirsym',
+    'text': 'Bounded symbolic verification: pre-/post-liquidation checks against position lists <= 16 (find unrolled): not in flash loan, the named position has debt >= 1 share and < 1 share of deposit, maintenance health <= 0 before and after and strictly better after; the liquidate handler with calc_value/calc_amount inlined: relief = value(seized, low asset price, 95%) at the high spot debt price, liquidator leg 97.5%, insurance fee = difference >= 0 with whole tokens to the insurance vault; prices > 0 before use; over-liquidation guard dominates the seize; wrapper modes and banks of the four legs.',
+    'note': _H + ' Decimals enumerated (quick: 6/9).'}
 NOT_APPLICABLE = {}
